@@ -125,6 +125,29 @@ func runC05(s *simrt.Sim) {
 			}
 		})
 		mutators = append(mutators, m)
+		// connection counts change under the balancer's feet (other requests starting and finishing)
+		nconn := tp.Range(0, 10, "n_conn_ops")
+		cops := make([][2]int, nconn)
+		for i := range cops {
+			cops[i] = [2]int{tp.Draw(len(known)+1, "conn.which"), tp.Draw(2, "conn.dir")}
+		}
+		m = simrt.GoNamed("conns", nil, func() {
+			open := map[int]int{}
+			for _, c := range cops {
+				if c[0] >= len(known) {
+					continue
+				}
+				if c[1] == 1 || open[c[0]] == 0 {
+					known[c[0]].IncConnNum()
+					open[c[0]]++
+				} else {
+					known[c[0]].DecConnNum()
+					open[c[0]]--
+				}
+				s.Fault("conn_change")
+			}
+		})
+		mutators = append(mutators, m)
 		nrel := tp.Range(0, 3, "n_reloads")
 		m = simrt.GoNamed("reloader", nil, func() {
 			h := &hist{s: s, tp: tp, focus: "C05", t: t, main: n, rampTill: map[string]time.Time{}}
